@@ -16,6 +16,12 @@ package filetransfer_test
 // The requests go through the same call sequence as internal/agent/agent.go:
 // ValidateUploadMetadata -> WriteUploadedFile(meta.Path...), ValidateDownloadMetadata ->
 // ReadFileForDownload[AtOffset](meta.Path...), Browse(req).
+//
+// Directory uploads come in two kinds: "upload-dir" (plain entries; the request path decides)
+// and "upload-dir-deep": the archive's entries lie one or more levels below symbolic links of
+// the allowed tree with the intermediate directories existing on the far side, hard-link
+// entries are sourced behind links, and a self-contained chain c0 -> ., c1 -> c0/.. climbs out
+// of the destination (this overlaps with C27, judged here against the allowed paths).
 
 import (
 	"archive/tar"
@@ -257,6 +263,108 @@ type c26Req struct {
 	Mode     string `json:"mode,omitempty"`
 	NFDTwin  bool   `json:"nfd_twin,omitempty"`
 	Shape    string `json:"shape"`
+	// upload-dir-deep only: the archive entries ("reg name", "sym name -> target",
+	// "hard name -> source"), names relative to Path
+	Entries []c26TarEntry `json:"entries,omitempty"`
+}
+
+type c26TarEntry struct {
+	Type   string `json:"type"` // reg sym hard dir
+	Name   string `json:"name"`
+	Target string `json:"target,omitempty"`
+}
+
+// c26WalkFrom walks up to depth steps down from start over the REAL tree, following links
+// (and preferring them), and returns the path it reached (start itself if nothing is below).
+func c26WalkFrom(rng *verifkit.Rand, start string, depth int) string {
+	p := start
+	for d := 0; d < depth; d++ {
+		ents, err := os.ReadDir(p)
+		if err != nil || len(ents) == 0 {
+			break
+		}
+		var linkNames []string
+		for _, e := range ents {
+			if e.Type()&os.ModeSymlink != 0 {
+				linkNames = append(linkNames, e.Name())
+			}
+		}
+		name := ents[rng.Intn(len(ents))].Name()
+		if len(linkNames) > 0 && rng.Chance(2, 3) {
+			name = verifkit.Pick(rng, linkNames)
+		}
+		p = filepath.Join(p, name)
+		if fi, err := os.Stat(p); err != nil || !fi.IsDir() {
+			break
+		}
+	}
+	return p
+}
+
+// c26GenDeepEntries builds a directory archive for dest whose entries lie one or more
+// levels BELOW symbolic links of the tree (intermediate directories exist on the far side:
+// the outside trees mirror sub/deep), hard-link entries whose source lies behind a link, and
+// optionally a self-contained chain c0 -> ., c1 -> c0/.., c2 -> c1/.. ... that climbs out of
+// dest with lexically-inside targets, followed by an entry below it into an existing outside
+// directory. Names of files that could legitimately be created never contain the canary name.
+func c26GenDeepEntries(rng *verifkit.Rand, b *c26Box, dest string) []c26TarEntry {
+	var es []c26TarEntry
+	dest = filepath.Clean(dest)
+	rel := func(p string) string { return strings.TrimPrefix(strings.TrimPrefix(p, dest), "/") }
+	isDir := func(p string) bool { fi, err := os.Stat(p); return err == nil && fi.IsDir() }
+	if filepath.IsAbs(dest) && isDir(dest) {
+		for i, n := 0, rng.Range(2, 4); i < n; i++ {
+			p := c26WalkFrom(rng, dest, rng.Range(1, 4))
+			if p == dest {
+				continue
+			}
+			if isDir(p) {
+				es = append(es, c26TarEntry{Type: "reg", Name: rel(p) + "/" + verifkit.Pick(rng, []string{"evil.txt", "f0.txt", "newdir/evil.txt"})})
+			} else if rng.Bool() {
+				es = append(es, c26TarEntry{Type: "reg", Name: rel(p)}) // overwrite what is there
+			} else {
+				es = append(es, c26TarEntry{Type: "hard", Name: fmt.Sprintf("hl_%d", i), Target: rel(p)}) // link what is there
+			}
+		}
+	}
+	if rng.Chance(1, 2) {
+		// climb: how many levels is dest below the sandbox root?
+		up := strings.Count(strings.TrimPrefix(dest, b.root), "/")
+		if up >= 1 && up <= 4 && strings.HasPrefix(dest, b.root+"/") {
+			es = append(es, c26TarEntry{Type: "sym", Name: "c0", Target: "."})
+			for k := 1; k <= up; k++ {
+				es = append(es, c26TarEntry{Type: "sym", Name: fmt.Sprintf("c%d", k), Target: fmt.Sprintf("c%d/..", k-1)})
+			}
+			top := fmt.Sprintf("c%d", up) // really the sandbox root
+			es = append(es, c26TarEntry{Type: "reg", Name: top + "/" + verifkit.Pick(rng, []string{"outside/sub/evil.txt", "outside/sub/deep/f2.txt", "outside/evil.txt", filepath.Base(b.allowed) + "X/sub/evil.txt", "evil.txt"})})
+			if rng.Bool() {
+				es = append(es, c26TarEntry{Type: "hard", Name: "hl_c", Target: top + "/outside/f0.txt"})
+			}
+		}
+	}
+	verifkit.Shuffle(rng, es)
+	// the chain only works in order: keep c0..ck in increasing order relative to each other
+	ci := []int{}
+	for i, e := range es {
+		if e.Type == "sym" && strings.HasPrefix(e.Name, "c") {
+			ci = append(ci, i)
+		}
+	}
+	for k, i := range ci {
+		es[i] = c26TarEntry{Type: "sym", Name: fmt.Sprintf("c%d", k), Target: map[bool]string{true: ".", false: fmt.Sprintf("c%d/..", k-1)}[k == 0]}
+	}
+	// entries below the chain go last
+	var head, tail []c26TarEntry
+	for _, e := range es {
+		if e.Type != "sym" && (strings.HasPrefix(e.Name, "c") && strings.Contains(e.Name, "/") || strings.HasPrefix(e.Target, "c")) {
+			tail = append(tail, e)
+		} else {
+			head = append(head, e)
+		}
+	}
+	es = append(head, tail...)
+	es = append(es, c26TarEntry{Type: "reg", Name: "up_deep.txt"})
+	return es
 }
 
 type c26Out struct {
@@ -369,6 +477,34 @@ func (b *c26Box) do(q c26Req) c26Out {
 			return o
 		}
 		o.accepted = true
+	case "upload-dir-deep":
+		meta := &filetransfer.TransferMetadata{Path: q.Path, Size: -1, IsDirectory: true, Compress: true}
+		if err := h.ValidateUploadMetadata(meta); err != nil {
+			o.note = "validate: " + err.Error()
+			return o
+		}
+		var zb bytes.Buffer
+		zw := gzip.NewWriter(&zb)
+		tw := tar.NewWriter(zw)
+		for _, e := range q.Entries {
+			switch e.Type {
+			case "sym":
+				tw.WriteHeader(&tar.Header{Name: e.Name, Typeflag: tar.TypeSymlink, Linkname: e.Target, Mode: 0o777})
+			case "hard":
+				tw.WriteHeader(&tar.Header{Name: e.Name, Typeflag: tar.TypeLink, Linkname: e.Target, Mode: 0o644})
+			default:
+				body := []byte("UPLOAD-CONTENT-deep")
+				tw.WriteHeader(&tar.Header{Name: e.Name, Typeflag: tar.TypeReg, Mode: 0o644, Size: int64(len(body))})
+				tw.Write(body)
+			}
+		}
+		tw.Close()
+		zw.Close()
+		if _, err := h.WriteUploadedFile(meta.Path, &zb, 0, true, true); err != nil {
+			o.note = "write: " + err.Error()
+			return o
+		}
+		o.accepted = true
 	case "roots":
 		resp := h.Browse(&filetransfer.BrowseRequest{Action: "roots"})
 		o.accepted = resp.Error == ""
@@ -448,14 +584,18 @@ func c26GenSpec(rng *verifkit.Rand) c26Spec {
 
 // c26GenReq draws a request. Paths are produced by a walk over the real tree that follows
 // links (so requests do reach through them), by lexical attack shapes, or by the NFD twin.
-func c26GenReq(rng *verifkit.Rand, b *c26Box) c26Req {
-	q := c26Req{}
-	q.Action = verifkit.Pick(rng, []string{"download", "download", "download", "download-offset", "upload", "upload", "upload", "upload-dir",
+func c26GenReq(rng *verifkit.Rand, b *c26Box) (q c26Req) {
+	q.Action = verifkit.Pick(rng, []string{"download", "download", "download", "download-offset", "upload", "upload", "upload", "upload-dir", "upload-dir-deep", "upload-dir-deep",
 		"list", "list", "list", "stat", "chmod", "chmod", "delete", "delete", "delete", "roots"})
 	q.Compress = rng.Bool()
 	q.Recurse = rng.Chance(2, 3)
 	q.Mode = verifkit.Pick(rng, []string{"0777", "0600", "0000", "0755"})
 	wantNew := (q.Action == "upload" || q.Action == "upload-dir") && rng.Chance(2, 3)
+	defer func() {
+		if q.Action == "upload-dir-deep" {
+			q.Entries = c26GenDeepEntries(rng, b, q.Path)
+		}
+	}()
 	start := b.allowed
 	if b.spec.Form == "two" && rng.Chance(1, 4) {
 		start = filepath.Join(b.root, "second")
@@ -552,7 +692,7 @@ func TestVerif_C26(t *testing.T) {
 	r.Rule("one evaluation = one request (download / resumed download / file upload / directory upload / list / stat / chmod / delete / roots) carried through the real " +
 		"StreamHandler on a PRNG sandbox with 0..4 symlinks (final component, parent directory, chains, dangling, relative and absolute) and an allowed-path form from " +
 		"{dir, dir/**, dir/*, two dirs, *, []}; non-trivial = request whose path, followed naively, names something outside the allowed directories (symlink-parent, symlink-final, " +
-		"symlink-dangling, lexical, ctrl, unicode classes, or any request under []); distinct by (form, links, action, path relative to the sandbox)")
+		"symlink-dangling, lexical, ctrl, unicode classes, a directory upload whose archive entries lie below links of the tree (archive-through-link), or any request under []); distinct by (form, links, action, path relative to the sandbox)")
 	r.Assume("the oracle observes persistent effects outside the allowed directories and canaries in returned bytes/names; a stat/readdir of an outside object whose result is not returned is not observed")
 	r.Assume("the agent call sites (internal/agent/agent.go handleFileTransfer*/BrowseFiles) are mirrored (Validate*Metadata then Write/Read with meta.Path), not executed")
 	base := ftTempBase(t)
@@ -567,12 +707,24 @@ func TestVerif_C26(t *testing.T) {
 		for k := 0; k < nreq; k++ {
 			q := c26GenReq(rng, b)
 			class := b.classify(q.Path, q.NFDTwin)
+			if q.Action == "upload-dir-deep" && class == "nosymlink" {
+				// the request path is clean; what is hostile is inside the archive
+				class = "archive-through-link"
+			}
+			for _, e := range q.Entries {
+				if strings.Count(e.Name, "/") >= 2 {
+					r.Add("deep_archive_entries_2+_levels", 1)
+				}
+				if e.Type == "hard" {
+					r.Add("deep_archive_hardlink_entries", 1)
+				}
+			}
 			out := b.do(q)
 			after := b.snapshot()
 			ch := ftDiff(b.snap, after)
 			rel := strings.ReplaceAll(q.Path, b.root, "$ROOT")
 			hostile := class != "nosymlink" && class != "star-config"
-			r.Eval(fmt.Sprintf("%s|%v|%s|%s|%v%v%s", spec.Form, spec.Links, q.Action, rel, q.Compress, q.Recurse, q.Mode), hostile)
+			r.Eval(fmt.Sprintf("%s|%v|%s|%s|%v%v%s|%v", spec.Form, spec.Links, q.Action, rel, q.Compress, q.Recurse, q.Mode, q.Entries), hostile)
 			r.Add("req_"+q.Action, 1)
 			r.Add("class_"+class, 1)
 			if out.accepted {
@@ -653,6 +805,9 @@ func TestVerif_C26(t *testing.T) {
 	r.Require("class_lexical", 200)
 	r.Require("returned_bytes", 1000)
 	r.Require("returned_names", 200)
+	r.Require("class_archive-through-link", 200)
+	r.Require("deep_archive_entries_2+_levels", 300)
+	r.Require("deep_archive_hardlink_entries", 100)
 }
 
 func c26Rel(ps []string, root string) []string {
